@@ -14,11 +14,11 @@ def hook_commits():
 # id -> (level, technique, engine, level text, level note, design ref)
 CHECKS = {
  "C03": ("exploration", "schedule exploration: generated thread programs and generated schedules over named pause points (controlled preemption) plus free-running stress; verdict = invariants over the recorded call/return history",
-         "sched", "Generated 2-4 thread programs and tape-decided schedules at 17 pause points and call boundaries; every observation must be one commit consistent across tables, inside the [returned-before, called-before] window, never aborted/uncommitted data, never moving backwards, writers never overlapping; a directed regression for the begin_read registration race.",
+         "sched", "Generated 2-4 thread programs and tape-decided schedules at 17 pause points and call boundaries; every observation must be one commit consistent across tables, inside the [returned-before, called-before] window, never aborted/uncommitted data, never moving backwards, writers never overlapping; a directed regression for the begin_read registration race; an enumerated grid of two-thread gate schedules (one thread parked at each pause point x commit kind x durability patterns x cache size x savepoint drop/restore) with the same oracle plus exact page accounting.",
          "Preemption only at named points/call boundaries; no weak-memory exploration; 25 ms timeout is a scheduling hint only.", "DESIGN.md 4/C03"),
  "C04": ("exploration", "model-based property testing: proptest-generated op tapes vs BTreeMap reference model, shrinking to a replay tape",
          "tableops",
-         "Seeded random search over operation sequences x 6 key/value families x page/region/cache sizes with byte-exact threshold value lengths; every return value and full forward/backward scans compared with a BTreeMap. A search, not a proof: it establishes that no counterexample exists among the generated cases.",
+         "Seeded random search over operation sequences x 6 key/value families x page/region/cache sizes with byte-exact threshold value lengths; every return value and full forward/backward scans compared with a BTreeMap, several replacements through one AccessGuardMut, final clean close + reopen + check_integrity; thorough tier adds a libFuzzer stage over the same tapes. A search, not a proof: it establishes that no counterexample exists among the generated cases.",
          "Trusts the harness model (Rust Ord of the key values), the hook setters for page/region size, and that values <= region/4 are representative.",
          "DESIGN.md 4/C04"),
  "C09": ("exploration", "model-based property testing: proptest-generated multimap op tapes vs BTreeMap<K,BTreeSet<V>> reference model, shrinking to a replay tape",
@@ -33,10 +33,10 @@ CHECKS = {
          "hist+decoder", "The storage image at the sync that ends every durable commit, compaction and clean close is decoded without redb code: checksums from slot to leaf, key order, routing-key bounds, equal leaf depth, entry counts, no page referenced twice, saved allocator state == reachable + pending free, contents == model commit point.",
          "Two record layouts are documented only in source comments (Appendix C).", "DESIGN.md 4/C10"),
  "C12": ("fault_enumeration", "corruption injection: swept/sampled byte, run, page-swap, god-byte and length alterations of generated closed images; oracle = never Ok(true)/Ok(false) with contents other than one commit point of the reference model",
-         "hist+corrupt", "Generated closed images x classified alterations (header sweep, checksummed bytes, slack, free pages, swaps, truncation/extension); after open + check_integrity the served contents must be exactly one commit point whenever Ok(_) is returned; a second check after a repair must be Ok(true). Built without debug assertions.",
+         "hist+corrupt", "Generated closed images x classified alterations (header sweep, checksummed bytes, slack, free pages, swaps, truncation/extension); after open + check_integrity the served contents must be exactly one commit point whenever Ok(_) is returned; a second check after a repair must be Ok(true). All 320 header bytes are swept in both tiers; a third of the alterations are first met by an open whose repair is aborted from the repair callback. Built without debug assertions, random stage in child processes.",
          "Panics on damaged files are counted as reported abnormally.", "DESIGN.md 4/C12"),
  "C14": ("exploration", "model-based property testing of the buddy allocator and the page manager's region logic against a bitset model; bounded-exhaustive enumeration of all op sequences for small capacities",
-         "alloc", "Generated and exhaustively enumerated alloc/alloc_lowest/free/record_alloc/resize/reload sequences against a bitset model with iff-conditions for every return value; page-manager level: no growth while an existing region has a suitable block.",
+         "alloc", "Generated and exhaustively enumerated alloc/alloc_lowest/free/record_alloc/resize/reload sequences against a bitset model with iff-conditions for every return value; page-manager level (allocate/free/region shrink step of commit): no growth while an existing region has a suitable block, shrink only removes free pages, allocator contents == live blocks.",
          "Wrapper hooks H4 expose the crate-private allocator; shrink only by trailing free pages.", "DESIGN.md 4/C14"),
  "C15": ("exploration", "property-based testing of pure functions: generated pairs/triples of values of 33 key types vs Rust Ord, round-trip and separator contract; exhaustive enumeration of small domains",
          "types", "Seeded generation of value triples for every built-in key type (biased to extremes, shared prefixes, UTF-8 boundaries) plus complete enumeration of small domains; compare == Ord, antisymmetry, transitivity, round-trip, separator validity (length, decodes, re-encodes, a <= s < b).",
@@ -44,7 +44,7 @@ CHECKS = {
  "C18": ("exploration", "model-based property testing: generated cursor scripts vs sorted-vector + gap-index model",
          "tableops", "Generated cursor scripts (seek with every bound kind, peek/next/prev, inserts in both directions with fitting/unordered/equal keys, long buffered runs, removals, close/drop, commit/reopen, read-only cursors) compared step by step with a sorted vector and a gap index, and by full scans after every close.",
          "Two key families (u64, &str) with byte values.", "DESIGN.md 4/C18"),
- "C19": ("exploration", "differential testing against redb 3.0.0 (cargo cache) over generated histories in both directions, incl. crash images; oracle = reference model read through the other version",
+ "C19": ("exploration", "differential testing against redb 3.0.0 (cargo cache) over generated histories in both directions, incl. crash images; oracle = reference model read through the other version by iteration and by point lookups through the branch pages",
          "compat", "Generated histories written by one version and read (and, old->new, extended) by the other over one shared buffer, default geometry; identical tables, contents, persistent savepoints, integrity verdicts; two known findings listed.",
          "Only one old release (3.0.0) is available offline; page size 4096 / default regions only.", "DESIGN.md 4/C19"),
  "C01": ("fault_enumeration", "crash-state enumeration over recorded histories: proptest-generated histories on a recording backend, enumerated/sampled subsets and tears of unsynced writes at every storage operation, nested crashes in recovery; oracle = reference model's commit points",
@@ -55,10 +55,10 @@ CHECKS = {
  "C02": ("exploration", "stateful model-based property testing: generated histories with held readers/owned iterators vs frozen model snapshots",
          "hist", "Generated single-threaded histories with up to 6 live readers and owned iterators/guards consulted after later commits of every durability, deletes, restores, refused compactions, cache sizes from 0; each must equal its commit point's model snapshot.",
          "Single-threaded schedule; thread interleavings are C03's engine.", "DESIGN.md 4/C02"),
- "C05": ("exploration", "stateful model-based property testing: abandoned transactions (abort/drop/poisoned commit) vs model; exact allocated-page equality",
+ "C05": ("exploration", "stateful model-based property testing: abandoned transactions (abort/drop/poisoned commit) vs model; exact allocated-page equality; closing drain with exact accounting and empty tracker",
          "hist", "Generated histories in which transactions are abandoned by abort, drop or poisoned commit; contents, catalog, persistent savepoints and allocated page count must equal the state before the transaction began.",
          "Storage-error-inside-operation cases are judged by C08.", "DESIGN.md 4/C05"),
- "C07": ("exploration", "stateful model-based property testing of savepoint create/restore/delete/drop orders vs captured model states; crash part via C01's crash-state enumeration",
+ "C07": ("exploration", "stateful model-based property testing of savepoint create/restore/delete/drop orders vs captured model states; closing drain with exact accounting and empty tracker; crash states of one case in 12 explored by the C01 engine",
          "hist+crashsim", "Generated savepoint-dominated histories with exact refusal variants and captured-state equality after restore+commit, nothing changed after restore+abort, persistent ids across reopen; persistent savepoints across crash states are compared inside C01 (savepoint sets are part of each commit point).",
          "Persistent Savepoint objects are fetched fresh; exact page accounting is C06.", "DESIGN.md 4/C07"),
  "C08": ("fault_enumeration", "fault injection at enumerated/sampled backend call indices (once/permanent) over generated histories, then drop-time crash states and reopen; oracle = reference model + refusal rule",
@@ -67,16 +67,16 @@ CHECKS = {
  "C11": ("fault_enumeration", "crash-state enumeration + clean-close/open paths over generated histories; oracle = check_integrity()==Ok(true) twice, unchanged contents, continuation workload",
          "hist+crashsim", "Every way of stopping a generated history (clean close, crash at enumerated/sampled storage operations) followed by open, check_integrity twice, a continuation workload that writes to every table, and check_integrity again.",
          "Allocation state is observed through check_integrity and safe reuse, not page by page (C06).", "DESIGN.md 4/C11"),
- "C13": ("exploration", "stateful model-based property testing with compaction steps; closed-file length comparison; refusal-reason oracle; crash states inside compaction via C01's engine",
+ "C13": ("exploration", "stateful model-based property testing with compaction steps; closed-file length comparison; refusal-reason oracle; crash states inside compact() of one case in 5 explored by the C01 engine; two-thread histories with compact() waiting behind a live write transaction",
          "hist+crashsim", "Generated fragmented histories with compact() calls: contents unchanged, closed file not larger (known finding listed), refusals name a true condition; C01 enumerates crash states in the 'compact' phase.",
          "Size is compared between cleanly closed files (upstream's own notion, DESIGN.md section 7).", "DESIGN.md 4/C13"),
- "C16": ("exploration", "schedule exploration of one shared WriteTransaction: generated per-table op streams on threads plus concurrent savepoint calls under generated schedules; oracle = per-table sequential models, independent page accounting, savepoint restore",
+ "C16": ("exploration", "schedule exploration of one shared WriteTransaction: generated per-table op streams on threads plus concurrent savepoint calls under generated schedules, plus a fixed-work real-parallelism stage (48 threads, savepoint alive); oracle = per-table sequential models, independent page accounting, savepoint restore",
          "sched+hist+decoder", "2-4 threads each drive their own table of one WriteTransaction against their own sequential model while other threads create/drop ephemeral savepoints under tape-decided schedules (or free-running); afterwards contents, page disjointness, exact accounting, and restore of every handed-out savepoint are checked.",
          "Preemption only at named points/call boundaries and by the OS in free-running cases.", "DESIGN.md 4/C16"),
- "C17": ("exploration", "stateful model-based property testing of catalog operations with exact error-variant oracle",
+ "C17": ("exploration", "stateful model-based property testing of catalog operations with exact error-variant oracle; exhaustive grid of (stored definition, requested definition) pairs incl. user-defined types; delete-releases-storage closing steps with independent page accounting",
          "hist", "Generated catalog histories over 6 names x 8 definitions with deliberately mismatching opens, renames, deletes, held handles, lists, aborts, reopen; compared with a model map including the exact TableError variant.",
          "TypeDefinitionChanged needs two Rust types with one TypeName and is not generated here.", "DESIGN.md 4/C17"),
- "C20": ("exploration", "monitor backend inside every generated history + generated drop-order / failing-open / fault-in-open / read-only scenarios",
+ "C20": ("exploration", "monitor backend inside every generated history + generated drop-order / failing-open / fault-in-open / failing-close / read-only (also of externally resized files) scenarios",
          "hist+monitor", "The recording backend checks bounds, close-exactly-once and nothing-after-close in every run of every history-based check; C20's own tapes permute drops of Database, write transaction, reader and savepoint, alter or fault the open path, and compare file bytes around a ReadOnlyDatabase.",
          "Thread interleavings of drops only in C03's engine; reads past EOF on deliberately altered files are counted, not judged.", "DESIGN.md 4/C20"),
 }
